@@ -177,6 +177,10 @@ func (StreamingCRLFileReader) ReadCRL(crlProcessor CRLProcessor, crlFilePath str
 	if err != nil {
 		return nil, err
 	}
+	if signatureBitString.BitLength != len(signatureBitString.Bytes)*8 {
+		//a signature is a whole number of octets, the bytes are handed to the verifier as they are
+		return nil, errors.New("signature of the CRL has unused bits")
+	}
 
 	return &CRLReadResult{
 		HashAndVerifyStrategy: strategies,
